@@ -148,6 +148,21 @@ def run_priors(desc, algo):
                 pass    # a failing earlier call is reported by the ordinary sections, not here
 
 
+def build_inplace(case, algo, costs):
+    """The same input OBJECT is solved under one cost vector, then its cost dictionary is changed in place (the repository's own tests
+    switch costs this way) and handed back for the call under test."""
+    inp = case.build(PRIOR_COSTS[1])
+    for pol in ("any", "all"):
+        try:
+            D.run_algo(algo, inp, pol)
+        except Exception:
+            pass
+    for ev in list(inp.costs):
+        name = next(n for n, key in H.COST_KEYS.items() if key == ev.name)
+        inp.costs[ev] = costs[name]
+    return inp
+
+
 def _fresh_process(payload, timeout):
     """Run checks.hist_proc in a fresh interpreter (clean module state of superrec2); returns the decoded JSON answer."""
     import json
@@ -160,12 +175,12 @@ def _fresh_process(payload, timeout):
 
 
 # ----------------------------------------------------------------------------- concrete re-check
-def concrete_failures(desc, algo, policy, costs, flags):
+def concrete_failures(desc, algo, policy, costs, flags, inplace=False):
     case = H.Case(desc)
     orc = oracle_for(case, algo)
     need = bool({"opt", "empty"} & set(flags))
     forms = oracle_forms(orc, algo, need)
-    inp = case.build(costs)
+    inp = build_inplace(case, algo, costs) if inplace else case.build(costs)
     try:
         res = D.run_algo(algo, inp, policy)
     except Exception as e:
@@ -216,7 +231,7 @@ def concrete_failures(desc, algo, policy, costs, flags):
         if len(res) != 1:
             fails.append(("anycount", f"'any' returned {len(res)} solutions"))
         else:
-            allres = D.run_algo(algo, case.build(costs), "all")
+            allres = D.run_algo(algo, inp if inplace else case.build(costs), "all")
             if solution_key(case, res[0], algo) not in {solution_key(case, o, algo) for o in allres}:
                 fails.append(("anynotinall", "the 'any' solution is not in the 'all' result"))
     return fails
@@ -226,23 +241,25 @@ def violation(prop, kind, text, desc, algo, policy, costs_conc, mode, flags, pri
     data = {"desc": desc, "algo": algo, "policy": policy, "costs": H.cost_json(costs_conc), "expect": kind, "flags": sorted(flags)}
     if prior:
         # the history (earlier calls, then this call with plain numbers) is replayed in a fresh interpreter
-        data["prior"] = True
+        data["prior"] = prior
         cf = [tuple(x) for x in _fresh_process({"mode": "replay", "data": data}, 600)]
-        text = "after earlier calls in the same interpreter (same input at default costs; sibling input at other costs): " + text
+        text = ("after the same input object was solved under another cost vector and its cost dictionary changed in place: " if prior == "inplace" else
+                "after earlier calls in the same interpreter (same input at default costs; sibling input at other costs): ") + text
     else:
         cf = concrete_failures(desc, algo, policy, costs_conc, flags)
     return {
         "kind": kind,
         "text": f"{algo}/{policy} [{mode}]: {text}; input {desc}; costs {H.cost_json(costs_conc)}; concrete re-run: {cf[:2]}",
-        "signature": {"kind": kind, "algo": algo, "policy": policy, "desc": desc, "costs": H.cost_json(costs_conc), **({"history": True} if prior else {})},
+        "signature": {"kind": kind, "algo": algo, "policy": policy, "desc": desc, "costs": H.cost_json(costs_conc), **({"history": prior} if prior else {})},
         "data": data, "confirmed": any(k == kind for k, _ in cf),
     }
 
 
 def replay(data):
-    if data.get("prior"):
+    if data.get("prior") and data["prior"] != "inplace":
         run_priors(data["desc"], data["algo"])      # `vcheck replay` is itself a fresh interpreter
-    fails = concrete_failures(data["desc"], data["algo"], data["policy"], H.cost_unjson(data["costs"]), set(data["flags"]))
+    fails = concrete_failures(data["desc"], data["algo"], data["policy"], H.cost_unjson(data["costs"]), set(data["flags"]),
+                              inplace=data.get("prior") == "inplace")
     for k, t in fails:
         print(f"  reproduced: {k}: {t}")
     return any(k == data.get("expect") for k, _ in fails)
@@ -254,7 +271,7 @@ def explore(prop, desc, algo, policy, sym, fixed, flags, max_paths=20000, budget
     :param sym: list of symbolic cost names; fixed: dict of concrete values for the others
     :returns: result dict (paths, obligations, discharged, violations, ...)
     """
-    if prior:
+    if prior and prior != "inplace":
         run_priors(desc, algo)       # only ever reached inside checks.hist_proc (fresh interpreter)
     case = H.Case(desc)
     orc = oracle_for(case, algo)
@@ -266,7 +283,7 @@ def explore(prop, desc, algo, policy, sym, fixed, flags, max_paths=20000, budget
     sup = is_super(algo)
     ordered = D.ORDERED[algo] if sup else None
     ctx, costs = H.cost_ctx(sym, fixed=fixed, coherent=coherent, with_sloss=sup, max_paths=max_paths, budget_s=budget_s)
-    inp = case.build(costs)
+    inp = build_inplace(case, algo, costs) if prior == "inplace" else case.build(costs)
     mode = "sym=" + ",".join(sym) + (" hgt=inf" if costs["hgt"] is inf else "")
     out = dict(paths=0, obligations=0, discharged=0, violations=[], sample=None)
     sols = None
@@ -411,7 +428,7 @@ def generic_worker(item):
                 continue
             r = explore(item["prop"], item["desc"], run["algo"], run["policy"], run["sym"], H.cost_unjson(run.get("fixed", {})),
                         set(run["flags"]), item.get("max_paths", 20000), item.get("budget_s", 600.0),
-                        coherent=run.get("coherent", True), prior=bool(run.get("prior")))
+                        coherent=run.get("coherent", True), prior=run.get("prior") or False)
             merge(tot, r)
     except Inconclusive as e:
         tot["status"] = "inconclusive"
@@ -490,8 +507,9 @@ def history_runs(algos, flags, policies=("any",)):
     out = []
     for algo in algos:
         for pol in policies:
-            out.append({"algo": algo, "policy": pol, "sym": FULL5 if is_super(algo) else ["spe", "dup", "hgt", "floss"], "fixed": {},
-                        "flags": sorted(flags), "coherent": True, "prior": True})
+            for prior in (True, "inplace"):
+                out.append({"algo": algo, "policy": pol, "sym": FULL5 if is_super(algo) else ["spe", "dup", "hgt", "floss"], "fixed": {},
+                            "flags": sorted(flags), "coherent": True, "prior": prior})
     return out
 
 
